@@ -283,6 +283,23 @@ Theorem C06_carets_single_range : forall len L others a b,
 Proof. exact carets_single_range_lemma. Qed.
 Print Assumptions C06_carets_single_range.
 
+(** The caret line under ANY source line (model [caret_marks_line], tied to the real InjectDiagnostics by correspondence
+    also on lines with non-ASCII text): one mark per CHARACTER, decided by the byte column of the character's first byte,
+    so the display column of a caret is the number of characters before the byte it denotes.  For an ASCII line it is the
+    per-byte [caret_marks] of the two theorems above. *)
+Theorem C06_carets_any_line_ascii : forall line L prs,
+  ascii_only line = true -> caret_marks_line line L prs = caret_marks (String.length line) L prs.
+Proof. exact caret_marks_line_ascii. Qed.
+Print Assumptions C06_carets_any_line_ascii.
+
+(** after four 2-byte characters the reported fragment [== 0)] (byte columns 21-25 of the line) gets its carets under
+    display columns 17-21: 16 blanks, then five carets — the closing parenthesis included *)
+Example C06_carets_after_non_ascii :
+  caret_marks_line ("(up{job=""" ++ bs [197;188;195;179;197;130;196;135]%N ++ """} == 0)")%string 1 [mkp 1 21 25]
+  = (repeat_char space 16 ++ "^^^^^")%string.
+Proof. vm_compute. reflexivity. Qed.
+Print Assumptions C06_carets_after_non_ascii.
+
 (** the former witness of the split-range defect now renders correctly *)
 Example C06_caret_split_range_fixed :
   caret_marks 19 1 [mkp 1 11 13; mkp 1 15 18] = (repeat_char space 10 ++ "^^^ ^^^^")%string.
